@@ -264,8 +264,8 @@ class Topology(ABC):
             else:
                 # if interfaces are defined, assume a list of tuples (name, labels, capacities) are present
                 # this was added to support multiple interfaces per facility
+                iindex = 0
                 for iname, ilabels, icapacities in interfaces:
-                    iindex = 0
                     faci = facs.add_interface(name=iname, node_id=node_id + f'-int{iindex}' if node_id else None,
                                               itype=InterfaceType.FacilityPort, labels=ilabels, capacities=icapacities)
                     iindex += 1
